@@ -649,6 +649,8 @@ class Machine:
 
     # ------------------------------------------------------------------ calls
     def normalise(self, c):
+        # no_std builds name alloc items through the crate's prelude module
+        if 'prelude::' in c: c = c.replace('prelude::alloc::', 'alloc::').replace('prelude::core::', 'core::')
         for p, r in self.subst: c = p.sub(r, c)
         return c
 
